@@ -2,7 +2,7 @@
 C18 -- script preprocessing substitutes exactly the embedded queries.
 
 Parts:
-  strings     ALL strings over { ' " # $ { } \\n a space } up to length N: for the strings of the
+  strings     ALL strings over { ' " # $ { } \\n a space backslash } up to length N: for the strings of the
               property's script language (terminated literals, terminated ${}) the output must be
               the input with every top-level ${e} replaced by an injective variable name keyed by
               strip(e), everything else byte-identical.  Others are counted as undefined_skipped
@@ -23,8 +23,8 @@ from mc.engine.pool import run_shards
 from mc.ref import scriptlang as R
 
 PID = 'C18'
-ALPHA = "'\"#${}\na "
-FRAGS = ['x=1', "'lit'", '"lit"', '"it\'s"', "'#'", '# c\n', "# it's\n", '${001001}', '${ 001001 }', '${%n_subsets}',
+ALPHA = "'\"#${}\na \\"
+FRAGS = ['# c\\\n', 'a\\\n', 'x=1', "'lit'", '"lit"', '"it\'s"', "'#'", '# c\n', "# it's\n", '${001001}', '${ 001001 }', '${%n_subsets}',
          '$', '$x', "'${q}'", '# ${q}\n', '\n', ' ', '{', '}', '"${a}#"', '${a"b}', "${#'}"]
 
 
@@ -262,13 +262,13 @@ def replay(part, case):
 
 def main(tier, seed):
     rep = Report(PID, tier, seed)
-    rep.rule = ('strings: every string over the 9-symbol alphabet up to the bound (trie nodes); outcome class = '
+    rep.rule = ('strings: every string over the 10-symbol alphabet up to the bound (trie nodes); outcome class = '
                 '(in-language?, distinct expressions, embed occurrences); run: full product message x query x '
                 'argument level x pragma level')
     rep.trusted_base = ['mc.ref.scriptlang tokeniser (hand vectors in selftest)']
     rep.assumptions = ['script literals are escape free and not triple quoted; unterminated literals / ${ are outside '
                        'the language: executed (must not raise) but not compared (undefined_skipped)']
-    N = 7 if tier == 'quick' else 9
+    N = 7 if tier == 'quick' else 8
     pre2 = [a + b for a in ALPHA for b in ALPHA]
     shards = [([''] + list(ALPHA), N)] + [([x], N) for x in pre2]
     k = seed % len(shards)
